@@ -100,6 +100,88 @@ def render(lines, wrap=None):
     return PRE + "fn main() {\n" + "".join("    " + l + "\n" for l in body + tail) + "}\n"
 
 
+
+# ---------------------------------------------------------------------------------------------------------------
+# return lifetime: product of (what the returned reference is built from) x (form) x (path) x (mutability) x (host),
+# verdict compared with Model/Borrow.lean retRejects (tie) and with RetForm.dangling (the property)
+
+RPRE = 'import "std/io";\ntype Pair struct { .X: i32, .Y: i32 };\ntype H struct { .V: i32 };\nfn mk() -> Pair { return { .X = 1, .Y = 22 } as Pair; }\n'
+
+
+def ret_cases(tier):
+    out = []
+    for base in "LVR":
+        for nq in range(0, 4 if tier == "quick" else 6):
+            var = "q" * nq + base
+            is_ref = nq > 0 or base == "R"
+            for form in ("b", "i"):
+                if form == "i" and not is_ref: continue
+                paths = [".Y"] if is_ref else ["", ".Y"]
+                for path in (paths if form == "b" else [""]):
+                    for mut in ((False, True) if nq <= 1 or base == "R" else (False,)):     # a copy of a `&'` reference to a local is itself a second mutable loan
+                        for host in ("func", "method", "closure"):
+                            out.append((form, var, path, mut, host))
+    return out
+
+
+def render_ret(form, var, path, mut, host):
+    amp = "&'" if mut else "&"
+    base, nq = var[-1], len(var) - 1
+    params, lets = [], []
+    if base == "L":
+        lets.append("let x0: Pair = mk();"); cur, is_ref = "x0", False
+    elif base == "V":
+        params.append("pv: Pair"); cur, is_ref = "pv", False
+    else:
+        params.append("pr: %sPair" % amp); cur, is_ref = "pr", True
+    for k in range(nq):
+        lets.append("let q%d: %sPair = %s%s;" % (k, amp, "" if is_ref else amp, cur))
+        cur, is_ref = "q%d" % k, True
+    if form == "b":
+        ret, rty = "return %s%s%s;" % (amp, cur, path), amp + ("i32" if path else "Pair")
+    else:
+        ret, rty = "return %s;" % cur, amp + "Pair"
+    body = "".join("    %s\n" % l for l in lets + [ret])
+    if host == "func":
+        return RPRE + "fn f(%s) -> %s {\n%s}\nfn main() { }\n" % (", ".join(params), rty, body)
+    if host == "method":
+        recv = params[0] if params else "h: H"
+        return RPRE + "fn (%s) m() -> %s {\n%s}\nfn main() { }\n" % (recv, rty, body)
+    return RPRE + "fn main() {\n    let g := fn(%s) -> %s {\n%s    };\n}\n" % (", ".join(params), rty, "".join("    " + l + "\n" for l in body.rstrip("\n").split("\n")))
+
+
+def check_return_lifetime(rep, tier, st):
+    cases = ret_cases(tier)
+    model = run_driver(["retlife"], "".join("%s %s\n" % (c[0], c[1]) for c in cases)).split("\n")[:-1]
+    res = run_many([{"files": {"main.fer": render_ret(*c)}, "mode": "check", "timeout": 60} for c in cases])
+    st["return_cases"] = len(cases); st["return_rejected"] = 0; st["return_dangling"] = 0
+    diffs = []
+    for c, m, r in zip(cases, model, res):
+        form, var, path, mut, host = c
+        mrej, dangling = [x == "true" for x in m.split()]
+        text = render_ret(*c)
+        errs = [d[2] for d in r.diags if d[0] == "error"]
+        lerr = [e for e in errs if "cannot return reference" in e]
+        other = [e for e in errs if e not in lerr]
+        key = "%s:%s:%s:%s:%s" % (form, var, path or "-", "mut" if mut else "shared", host)
+        if r.compile_rc not in (0, 1) or other:
+            rep.fail("other:ret:" + key, "return-lifetime case %s: compiler fails for another reason: %s" % (key, (other or [strip_ansi(r.compile_out)[-150:]])[0][:150]),
+                     {"kind": "input", "files": {"main.fer": text}, "observed": strip_ansi(r.compile_out)[-600:]})
+            continue
+        rej = bool(lerr)
+        st["return_rejected"] += rej; st["return_dangling"] += dangling
+        if rej != mrej and len(diffs) < 20:
+            diffs.append({"case": key, "compiler_rejects": rej, "model_rejects": mrej})
+        if dangling and not rej:
+            rep.fail("unsound:ret:" + key, "a %s RETURNS A REFERENCE INTO ITS OWN FRAME and is accepted: %s of `%s` (L = local value, V = by-value parameter, q = local reference variable bound to the next)" %
+                     (host, "re-borrow / borrow" if form == "b" else "return of the reference variable", var),
+                     {"kind": "input", "files": {"main.fer": text}, "cmd": "ferret -t main.fer", "expected": "error: cannot return reference to local", "observed": "accepted"})
+        elif rej and not dangling:
+            k2 = "overstrict:ret:reborrow-through-local-ref" if (form == "b" and var.startswith("q") and var.endswith("R")) else "overstrict:ret:" + key
+            rep.fail(k2, "a %s returning a reference that points OUTSIDE its frame is rejected (%s): %s" % (host, key, lerr[0][:100]),
+                     {"kind": "input", "files": {"main.fer": text}, "cmd": "ferret -t main.fer", "expected": "accepted", "observed": lerr[0]})
+    return diffs
+
 BORROW_ERR = ("while it is", "because it is", "cannot borrow", "borrowed")
 
 # fixed programs: (name, source, expect_accept)
@@ -204,6 +286,11 @@ def main():
             rep.fail("runtime:fixed:" + name, "write-through program `%s` prints %s (exit %s, %s), expected %s" % (name, r.lines, r.run_rc, strip_ansi(r.compile_out)[-100:], exp),
                      {"kind": "input", "files": {"main.fer": src}, "expected": exp, "observed": r.lines})
 
+    ret_diffs = check_return_lifetime(rep, tier, st)
+    if ret_diffs and not rep.violations:
+        rep.fail("tie:retlife", "Model/Borrow.lean retRejects and the compiler's return-lifetime check disagree on %d cases although the property holds on each" % len(ret_diffs),
+                 {"kind": "broken-obligation", "correspondence": "fvdriver retlife vs ferret -t", "diffs": ret_diffs}, no_input=True)
+
     ok, outp = lake_build(["FerretVerif.Props.C07"])
     tn = theorem_names("C07")
     axioms, discharged = {}, 0
@@ -223,7 +310,8 @@ def main():
         rep.fail("gen:errors", "%d of %d generated programs fail for unrelated reasons" % (st["other_errors"], len(seqs)), {"kind": "broken-obligation", "correspondence": "c07 rendering"}, no_input=True)
     cov = {
         "explanation": "PARTIAL: proof-level for the straight-line fragment (overlap laws, aliasing-xor-mutation invariant of accepted runs, soundness of the access checks, exact loan lifetime); branches, loops, closures, references returned by calls, "
-                       "the return-lifetime rule and the run-time half (write-through) are exercised by fixed programs and executed accepted sequences only.",
+                       "and the run-time half (write-through) are exercised by fixed programs and executed accepted sequences only. RETURN LIFETIME: proof-level for returns built from a local value, a by-value or reference parameter "
+                       "and chains of local reference variables of any length (return_rejected_iff_dangling), tied by the product of such forms x paths x mutability x {function, method, function literal}.",
         "obligations": len(tn), "discharged": discharged,
         "checker_cmd": "cd /verif/lean && lake build FerretVerif.Props.C07 && #print axioms per theorem",
         "trusted_base": ["Lean 4 kernel", "axioms: " + ", ".join(sorted({a for v in axioms.values() if v for a in v})), "event -> Ferret rendering", "classification of diagnostic texts as borrow errors", "Python straight-line simulator for executed sequences"],
